@@ -1,7 +1,7 @@
 CHECK = {
     "level": "exploration",
     "engine": "rtmp-txn-schedules",
-    "technique": "schedule-driving transport (answers from inside Write, blocks the writer until the reader has decoded) + happens-before assertions + porcupine linearizability check of recorded send/recv histories against an outstanding-set model + Go race detector",
+    "technique": "schedule-driving transport (answers from inside Write, blocks the writer until the reader has decoded) + happens-before assertions + porcupine linearizability check of recorded send/recv histories against an outstanding-set model + deep-pipeline runs (up to 1025 requests outstanding before any answer, three answer orders, AMF0- and AMF3-typed answers) + Go race detector",
     "level_text": "Held on the interleavings observed: hundreds (quick) to tens of thousands (thorough) of runs of one endpoint with a writer and a reader goroutine under the race detector. The harness transport sees each flushed request inside Write and forces the critical interleavings with certainty (alpha: the response is delivered AND fully decoded by the reader before Write returns; beta: delivered before Write returns; gamma: after WritePacket returned; delta: duplicates and unsolicited responses). Every answer delivered after its request was handed over must decode as the request's response type; the recorded history {send:[call,handed], recv:[delivered,decoded]} must be linearizable under the outstanding-set model (porcupine, partitioned by transaction id); duplicates/unsolicited responses must be refused; zero race reports. Evidence lists the distinct per-request event orders observed. Not a proof.",
     "level_note": "One reader and one writer goroutine (the usage the statement describes). A transaction id is re-used only after its previous answer was decoded. Watchdogs (20 s) only turn a hang into INCONCLUSIVE.",
     "parts": [
